@@ -50,7 +50,15 @@ def run(ctx):
     # ---- R9.2
     fg = fx.body("clap_builder::parser::arg_matcher::ArgMatcher::fill_in_global_values")
     cmpc = fg.calls_to(r"PartialOrd>?::(gt|lt|ge|le)$")
-    res.floor("R9.2", "source comparison in fill_in_global_values", len(cmpc), 1)
+    # the same decision written with max/max_by_key: on a tie std returns its SECOND argument, which must be the child's own value
+    mx = [c for c in fg.calls_to(r"cmp::(max_by_key|max_by|max)$|Ord>?::max$")]
+    for c in mx:
+        a0, a1 = expr(fg, c.args[0]), expr(fg, c.args[1])
+        src_key = c.callee_q.endswith("max_by_key") and any(cb.calls_to(r"MatchedArg::source$") for cb in closure_bodies(fx, c))
+        res.check(src_key and re.search(r"^get\(vals_map", a0) is not None and re.search(r"^get\(self", a1) is not None, "R9.2", "parent-wins-only-if-greater", c.where(),
+                  "max_by_key(parent, child, source): a tie keeps the child's value", "global merge picks with %s(%s, %s): on equal sources the ancestor's value replaces the one given at the deeper level (std returns the second argument on a tie)" % (c.callee_q.rsplit("::", 1)[1], a0[:40], a1[:40]))
+    if not mx:
+        res.floor("R9.2", "source comparison in fill_in_global_values", len(cmpc), 1)
     for c in cmpc:
         op = c.callee_q.rsplit("::", 1)[1]
         a, b_ = expr(fg, c.args[0]), expr(fg, c.args[1])
